@@ -16,6 +16,8 @@ def process_resource(rows: ResourceWrapper, configuration):
 
 
 def select_fields(fields, resources=None, regex=True):
+    # the selection is gone through once per selected resource: a one-shot iterable would be used up by the first
+    fields = list(fields)
 
     def func(package):
         configuration = dict()
